@@ -153,7 +153,7 @@ class C15(Property):
     ASSUMPTIONS = ["the GIL makes single bytecodes atomic", "no default handler is (re)registered while threads run"]
     REAL = ["labrea/* (unmodified) executed by real threading.Thread objects"]
     STUBS = ["threading.Lock objects reachable from labrea modules (SimLock)", "the choice of which thread runs (seeded scheduler)", "user callables", "request types and handlers"]
-    QUICK = {"runs": 4000, "wall": 60}
+    QUICK = {"runs": 5000, "wall": 80}
     THOROUGH = {"runs": 400000, "wall": 540}
     NONTRIVIAL_MEASURE = "interleaving_with_preemptions"
 
@@ -170,10 +170,11 @@ class C15(Property):
         elif x < 0.8:
             strat = {"kind": "pct", "depth": rng.choice([1, 2, 3]), "horizon": rng.choice([100, 300, 900, 3000])}
         else:
-            strat = {"kind": "sweep", "at": rng.randrange(1, 600), "to": f"T{rng.randrange(nthreads)}"}
+            strat = {"kind": "sweep", "at": rng.randrange(1, 600), "to": f"T{rng.randrange(nthreads)}", "first": f"T{rng.randrange(nthreads)}"}
         case = {"scenario": scenario, "nthreads": nthreads, "granularity": gran, "strategy": strat, "sched_seed": rng.getrandbits(48)}
-        if rng.random() < (0.008 if tier == "quick" else 0.04):
+        if rng.random() < (0.015 if tier == "quick" else 0.04):
             case["systematic"] = True  # every depth-1 pre-emption (up to a stride) instead of one sampled schedule
+            case["systematic_first"] = f"T{rng.randrange(nthreads)}"
         getattr(self, "_gen_" + scenario)(rng, case)
         return case
 
@@ -204,8 +205,10 @@ class C15(Property):
     def _gen_register(self, rng, case):
         # a lost update needs two writers, and a pre-emption between the read and the write of the table
         case["nthreads"] = 3
-        if rng.random() < 0.8:
+        if rng.random() < 0.6:
             case["granularity"] = "shared"
+        # registrations made BEFORE the threads start (a reader that walks the table has something to walk while a writer adds)
+        case["pre_regs"] = rng.sample(["p", "q", "r"], rng.randint(0, 3))
         aliases = ["a", "b", "c", "d", "e"]
         regs = {}
         for i in range(case["nthreads"] - 1):
@@ -268,7 +271,8 @@ class C15(Property):
     def _run_systematic(self, case):
         """Depth-1 systematic sweep: a run without pre-emption gives the number N of yield points of the first thread's
         solo prefix; then one run per (yield index i, other thread j): pre-empt at i to j, run to completion otherwise."""
-        base = self._run_once(dict(case, strategy={"kind": "sweep", "at": -1, "to": "T0"}))
+        first = case.get("systematic_first", "T0")  # whose solo prefix is swept (seeded per case: any thread)
+        base = self._run_once(dict(case, strategy={"kind": "sweep", "at": -1, "to": "T0", "first": first}))
         if base.violations:
             return base
         n = min(base.stats.get("yield_points", 0), 300)
@@ -276,7 +280,9 @@ class C15(Property):
         total = base
         for at in range(1, n, stride):
             for j in range(case["nthreads"]):
-                r = self._run_once(dict(case, strategy={"kind": "sweep", "at": at, "to": f"T{j}"}))
+                if f"T{j}" == first:
+                    continue
+                r = self._run_once(dict(case, strategy={"kind": "sweep", "at": at, "to": f"T{j}", "first": first}))
                 for k, v in r.stats.items():
                     total.stats[k] = total.stats.get(k, 0) + v
                 for k, v in r.faults.items():
@@ -455,6 +461,9 @@ class C15(Property):
 
             iface = interface("M")(type("IFACE", (), {f"m{i}": staticmethod(ds) for i, ds in enumerate(datasets)}))
             datasets = [getattr(iface, f"m{i}") for i in range(len(datasets))]
+        for alias in case.get("pre_regs", []):
+            for ds in datasets:
+                ds.register(alias, Value(("impl", alias + "@pre")))
         reg_iv = {}  # alias -> list of (invoke, return, tag)
         maybe_iv = {}  # the same for registrations that failed half-way (their own alias may or may not be registered)
         final = {}
